@@ -182,6 +182,20 @@ Definition split_userinfo (au : text) : text * text * text :=
          end
   end.
 
+(* try: port = int(port_str)  except ValueError: (raise URLParseError if port_str else port = None) *)
+Definition port_of (port_str : text) : mres (option Z) :=
+  if all_ascii port_str then
+    match py_int port_str with
+    | Some p => MOk (Some p)
+    | None => match port_str with [] => MOk None | _ => URLParseErr end
+    end
+  else                                      (* int() of non-ASCII text: Unicode digits/blanks, asked of the oracle *)
+    do r <- o_int O port_str;
+    match r with
+    | Some p => MOk (Some p)
+    | None => URLParseErr
+    end.
+
 (* host, sep, port_str = hostinfo.partition(':'), the IPv6 bracket repair, int(port_str) *)
 Definition split_hostport (hostinfo : text) : mres (text * option Z) :=
   match hostinfo with
@@ -195,17 +209,7 @@ Definition split_hostport (hostinfo : text) : mres (text * option Z) :=
           (host ++ [58] ++ host_right ++ [93],
            match ps with 58 :: r => r | _ => ps end)
         else (host, port_str) in
-      if all_ascii port_str then
-        match py_int port_str with
-        | Some p => MOk (host, Some p)
-        | None => match port_str with [] => MOk (host, None) | _ => URLParseErr end
-        end
-      else                                      (* int() of non-ASCII text: Unicode digits/blanks, asked of the oracle *)
-        do r <- o_int O port_str;
-        match r with
-        | Some p => MOk (host, Some p)
-        | None => URLParseErr
-        end
+      do p <- port_of port_str; MOk (host, p)
     else MOk (host, None)
   end.
 
